@@ -84,6 +84,7 @@ pub fn run(ctx: &mut Ctx) {
     ctx.run_suite(&super::c02bp::BackPressureSuite);
     ctx.run_suite(&super::c02sess::TunnelEndsSuite);
     ctx.run_suite(&super::c02tick::TickSuite);
+    ctx.run_suite(&super::c02real::RealEndsSuite);
     ctx.assume("scripted endpoints are cancel-safe like real sockets (a cancelled read or wait loses nothing) and keep answering EOF after EOF");
     ctx.assume("this check covers the pipe level (pipe.rs); the HTTP/2 window credit of the real codec halves is exercised by C16/C17 sessions, HTTP/3 only through the full stack");
 }
@@ -96,6 +97,7 @@ pub fn replay(ctx: &mut Ctx, suite: &str, case: &Value) -> bool {
         "bidirectional-back-pressure" => ctx.replay_suite(&super::c02bp::BackPressureSuite, case),
         "session-tunnel-ends" => ctx.replay_suite(&super::c02sess::TunnelEndsSuite, case),
         "session-stall-across-idle-tick" => ctx.replay_suite(&super::c02tick::TickSuite, case),
+        "real-destination-ends" => ctx.replay_suite(&super::c02real::RealEndsSuite, case),
         _ => false,
     }
 }
